@@ -1,6 +1,6 @@
 """C02 -- echelon forms: rank, row space, unique RREF (DESIGN 5/C02)."""
 BOUNDS = {
- "quick": "FULL (every bit symbolic): naive Gauss / gauss_delayed, both `full`, shapes <= 3x4; PASSIVE [K|S] (K = first 64*KW columns concrete with full row rank, S = 70 fully symbolic columns, 8-12 rows, 5 rank-profile families incl. pivots across the 63/64 boundary and a leading zero word; rank-deficient variants with concrete zero-K rows): mzd_echelonize_m4ri k in {0,1,2,3,5,8} x full in {0,1}, mzd_echelonize_pluq, hybrid mzd_echelonize with the density verdict arbitrary (stub), top-reduction after a non-reduced run",
+ "quick": "FULL (every bit symbolic): naive Gauss / gauss_delayed, both `full`, shapes <= 3x4; PASSIVE [K|S] (K = first 64*KW columns concrete with full row rank, S = 70 fully symbolic columns, 8-12 rows, 5 rank-profile families incl. pivots across the 63/64 boundary and a leading zero word; rank-deficient variants with concrete zero-K rows): mzd_echelonize_m4ri k in {0,1,2,3,5,8} x full in {0,1}, mzd_echelonize_pluq, hybrid mzd_echelonize with every density verdict (stub, enumerated), top-reduction after a non-reduced run",
  "thorough": "FULL naive up to 4x5 / 5x5 / 2x66; PASSIVE up to 20 rows, 2-word K, more seeds, k in 0..10, hybrid mid-way switch (300-column zero gap)",
 }
 OUTSIDE = "the rank-profile quantifier for the table-driven routines as a whole: in PASSIVE queries the pivot structure (K) is concrete per query, only the passive columns S are universally quantified; FULL symbolic control only for the naive routine <= 5x5"
@@ -20,13 +20,19 @@ def plan(tier, seed):
                 qs.append(Q("naive%d-full-%dx%d-f%d" % (alg, r, c, full), "c02.c", {"NR": r, "NC": c, "ALG": alg, "MODE": 0, "FULLRED": full, "KINIT": 1},
                             group="c02-naive", unwindset={"mzd_gauss_delayed": r + 2}, timeout=2400 if r * c > 12 else 900, fallback="kissat", mem_gb=8))
     # ---- PASSIVE
-    def P(name, alg, nr, nc, kw, prof, rsym=None, full=1, k=0, lastconc=True, conck=True, dens=False, seedoff=0, thr=None, cfg="ts", to=900):
+    def P(name, alg, nr, nc, kw, prof, rsym=None, full=1, k=0, lastconc=True, conck=True, dens=False, seedoff=0, thr=None, cfg="ts", to=900, densseqs=(0, 1)):
+        if dens:
+            for ds in densseqs:
+                _P(name + "-d%d" % ds, alg, nr, nc, kw, prof, rsym, full, k, lastconc, conck, True, seedoff, thr, cfg, to, ds)
+        else:
+            _P(name, alg, nr, nc, kw, prof, rsym, full, k, lastconc, conck, False, seedoff, thr, cfg, to, 0)
+    def _P(name, alg, nr, nc, kw, prof, rsym, full, k, lastconc, conck, dens, seedoff, thr, cfg, to, ds):
         d = {"NR": nr, "NC": nc, "ALG": alg, "MODE": 1, "KW": kw, "PROF": prof, "FULLRED": full, "KPAR": k, "VSEED": 1 + seed + seedoff,
              "RSYM": rsym if rsym is not None else (nr - 1 if lastconc else nr)}
         if lastconc: d["LASTCONC"] = None
         if conck: d["CONCK"] = None
         kw2 = {}
-        if dens: kw2["replace_calls"] = {"_mzd_density": "verif_density_stub"}
+        if dens: kw2["replace_calls"] = {"_mzd_density": "verif_density_stub"}; d["DENSSEQ"] = ds
         qs.append(Q(name, "c02.c", d, group="c02-passive-alg%d" % alg, cfg=cfg, backend="cadical", fallback="z3", timeout=to, mem_gb=10, cbmc_flags=FS, **kw2))
     profs1 = [0, 1]
     profs2 = [2, 3, 4]
@@ -54,12 +60,20 @@ def plan(tier, seed):
     # more rows
     for (nr, alg) in [(12, 2), (12, 3), (16, 2)] + ([(20, 2), (20, 3), (24, 2)] if T else []):
         P("rows%d-alg%d-p1" % (nr, alg), alg, nr, 134, 1, 1, to=1500)
+    # gap from column 2 to the next word with cursor offset != 0 (pivot search continues in a later word)
+    for alg in (2, 3):
+        P("gapword-alg%d-8x198" % alg, alg, 8, 198, 2, 7, to=1500)
+        qs[-1].defs.update({"GAPAT": 3, "GAPLEN": 61}); qs[-1].layout.update({"GAPAT": 3, "GAPLEN": 61})
+    # number of pivots found in one block (kbar) vs. number of tables: k = 4 => block of 24 columns; kbar = GAPAT
+    for kbar in ([7, 10, 14, 18, 21] if not T else list(range(5, 25))):
+        P("kbar%d-k4-%dx134" % (kbar, kbar + 2), 2, kbar + 2, 134, 1, 7, k=4, to=1800)
+        qs[-1].defs.update({"GAPAT": kbar, "GAPLEN": 24 - kbar + 3}); qs[-1].layout.update({"GAPAT": kbar, "GAPLEN": 24 - kbar + 3})
     # scaled-down L3: k selection `0.75*2^k*ncols > L3/2` path
     P("m4ri-8x134-tinyL3", 2, 8, 134, 1, 0, cfg="tinyL3b")
     if T:
         for s in (1, 2, 3):
             for alg in (2, 3, 4):
                 P("seed%d-alg%d-10x134" % (s, alg), alg, 10, 134, 1, 0, seedoff=10 * s, dens=(alg == 4))
-        P("hybrid-mid-8x454-p5", 4, 8, 454, 6, 5, dens=True, to=2400)
+        P("hybrid-mid-8x454-p5", 4, 8, 454, 6, 5, dens=True, to=2400, densseqs=(0, 1, 2))
         P("m4ri-8x454-p5", 2, 8, 454, 6, 5, to=2400)
     return qs
